@@ -233,6 +233,127 @@ def plan_c14(run, tmp):
     return V.finish(run, "exploration", "structure-aware mutants generated and classified by TLC (MutGen over the reference decoder), prefixes and random strings; every decode entry point in an isolated worker; verdict by monitors recorded in the trace and evaluated by TLC")
 
 
+def plan_c11(run, tmp):
+    known = V.load_known()
+    hx = V.build_harness(tmp)
+    th = run.tier == "thorough"
+    r = V.model_check(tmp, "HApi", "HApi")
+    run.add_mc("HApi", r, "ProbeEqualsFresh after every history of length <= 8 over {stream write/read, one-shot encode/decode ok and failing, Reset} x 4 abstract values")
+    for neg in ("resetKeepsRefs", "resetKeepsDefs", "encodeSkipsReset"):
+        d = V.spec_dir(tmp, "mc_HApi_" + neg)
+        with open(V.os.path.join(d, "HApi_%s.cfg" % neg), "w") as f:
+            f.write('SPECIFICATION Spec\nCONSTANTS MaxLen = 4\n Deviation = "%s"\nINVARIANTS ProbeEqualsFresh\nVIEW View\nCHECK_DEADLOCK FALSE\n' % neg)
+        r = V.run_tlc(d, "HApi", "HApi_" + neg, workers=4, timeout=600)
+        if "Invariant ProbeEqualsFresh is violated" not in r["out"]:
+            raise V.Infra("negative configuration %s did not violate ProbeEqualsFresh" % neg)
+        run.add_mc("HApi_" + neg, r, "negative configuration: ProbeEqualsFresh violated")
+    vec = V.os.path.join(tmp, "hist_vectors.ndjson")
+    cfg = 'SPECIFICATION Spec\nCONSTANTS MaxLen = %d\n Deviation = "none"\nINVARIANTS Emit\nCHECK_DEADLOCK FALSE\n'
+    r = V.tlc_vectors(tmp, "HApi", "GenHist", cfg % (3 if th else 2), vec, workers=8, timeout=2400)
+    run.add_mc("GenHist", r, "generator: every history up to length %d" % (3 if th else 2))
+    r2 = V.tlc_vectors(tmp, "HApi", "GenHistSim", cfg % 30, vec, workers=4, timeout=2400, append=True,
+                       extra=("-simulate", "num=%d" % (400 if th else 12), "-depth", "31", "-seed", str(run.seed)))
+    run.add_mc("GenHistSim", r2, "generator (simulation): histories up to length 30 (every prefix printed)")
+    out = V.os.path.join(tmp, "tr_hist")
+    hxargs = ["hist", "-vectors", vec]
+    V.run_hx(hx, hxargs + ["-out", out, "-shards", str(V.NCPU)], timeout=7200)
+    shards = V.shard_files(out)
+    v = V.validate_shards(tmp, "TraceCodec", shards, "hist")
+    summary = V.json.load(open(V.os.path.join(out, "summary.json")))
+    summary["vectors_from_tlc"] = r["vectors"] + r2["vectors"]
+    run.add_validation("hist", v, summary)
+    V.judge(run, known, v["rejs"], shards, dict(hx=hxargs, seed=run.seed, tier=run.tier, module="TraceCodec"))
+    run.assumptions += ["probe values have no multi-entry maps, so octet equality between the used and the fresh instance is required",
+                        "error-ness is compared, not error text"]
+    return V.finish(run, "model_checking", "HApi model-checked (ProbeEqualsFresh; three negative configurations); every history of the model up to the bound and simulated histories up to length 30 replayed on real Encoder / Decoder / Serializer instances, probes on the used and on a fresh instance compared by TLC; snapshots of values, input octets and maps before/after compared by TLC")
+
+
+def plan_c16(run, tmp):
+    known = V.load_known()
+    hx = V.build_harness(tmp)
+    r = V.model_check(tmp, "HExtract", "HExtract")
+    run.add_mc("HExtract", r, "Terminates, Closed, Consistent for every type graph over 3 struct types x 2 fields x every witness shape")
+    r = V.model_check(tmp, "HExtract", "HExtract_neg", expect="Closed")
+    run.add_mc("HExtract_neg", r, "negative: a walk that stops at nil pointers violates Closed")
+    r = V.model_check(tmp, "HExtract", "HExtract_neg2", expect="Temporal property Terminates was violated")
+    run.add_mc("HExtract_neg2", r, "negative: a type walk without a visited set does not terminate on a self-referential type")
+    if run.tier == "thorough":
+        r = V.model_check(tmp, "HExtract", "HExtract_big")
+        run.add_mc("HExtract_big", r, "3 struct types x 2 fields, safety")
+    out = V.os.path.join(tmp, "tr_extract")
+    hxargs = ["extract"]
+    V.run_hx(hx, hxargs + ["-seed", str(run.seed), "-tier", run.tier, "-out", out, "-shards", str(V.NCPU)], timeout=3600)
+    shards = V.shard_files(out)
+    v = V.validate_shards(tmp, "TraceCodec", shards, "extract")
+    summary = V.json.load(open(V.os.path.join(out, "summary.json")))
+    run.add_validation("extract", v, summary)
+    V.judge(run, known, v["rejs"], shards, dict(hx=hxargs, seed=run.seed, tier=run.tier, module="TraceCodec"))
+    rshards = V.shard_files(out, "rt")
+    v2 = V.validate_shards(tmp, "TraceCodec", rshards, "extract_rt")
+    mine = [x for x in v2["rejs"] if V.re.search(r"^(C01|C16|C02\.(wellformed|class|fields|listType))", x[1])]
+    v2["rejs"] = mine
+    run.add_validation("extract_rt", v2, dict(evaluations=v2["events"], traces=v2["events"], distinct_nontrivial=0, family_rule="round trips of second values with the maps extracted from each witness"))
+    V.judge(run, known, mine, rshards, dict(hx=hxargs, seed=run.seed, tier=run.tier, module="TraceCodec", shard="rt"))
+    return V.finish(run, "model_checking", "HExtract model-checked; extraction entry points run on every type x witness in a worker process, the reflect type graph and the resulting maps recorded and TLC checks closure, consistency and custom names over the static type graph; second values round-tripped with each witness's maps")
+
+
+def plan_c12(run, tmp):
+    known = V.load_known()
+    hx = V.build_harness(tmp)
+    hxr = V.build_harness(tmp, race=True)
+    th = run.tier == "thorough"
+    r = V.model_check(tmp, "HConc", "HConc")
+    run.add_mc("HConc", r, "Independence, NoSharedWrite, PrivateState under every token-granularity interleaving of 3 instances x all values of <=2 tokens over 2 classes")
+    r = V.model_check(tmp, "HConc", "HConc_neg", expect="Independence")
+    run.add_mc("HConc_neg", r, "negative: a package-level definition cache violates Independence")
+    r = V.model_check(tmp, "HConc", "HConc_neg2", expect="NoSharedWrite")
+    run.add_mc("HConc_neg2", r, "negative: an incomplete name map is written (auto-registration)")
+    # (a) spec -> code: every interleaving replayed at call granularity
+    vec = V.os.path.join(tmp, "sched_vectors.ndjson")
+    cfg = 'SPECIFICATION Spec\nCONSTANTS N = %d\n Classes = {"A"%s}\n Deviation = "none"\nINVARIANTS Emit\nCHECK_DEADLOCK FALSE\n'
+    r = V.tlc_vectors(tmp, "HConc", "GenSched2", cfg % (2, ', "B"'), vec, workers=4)
+    run.add_mc("GenSched2", r, "generator: all interleavings of 2 instances")
+    r2 = V.tlc_vectors(tmp, "HConc", "GenSched3", cfg % (3, ''), vec, workers=4, append=True)
+    run.add_mc("GenSched3", r2, "generator: all interleavings of 3 instances")
+    out = V.os.path.join(tmp, "tr_sched")
+    hxargs = ["concsched", "-vectors", vec]
+    V.run_hx(hx, hxargs + ["-out", out, "-shards", str(V.NCPU)])
+    shards = V.shard_files(out)
+    v = V.validate_shards(tmp, "TraceCodec", shards, "sched")
+    run.add_validation("sched", v, V.json.load(open(V.os.path.join(out, "summary.json"))))
+    V.judge(run, known, v["rejs"], shards, dict(hx=hxargs, seed=run.seed, tier=run.tier, module="TraceCodec"))
+    # (b) code -> spec under load, race-detector build
+    outl = V.os.path.join(tmp, "tr_load")
+    V.os.makedirs(outl, exist_ok=True)
+    env = dict(V.GOENV, GORACE="log_path=%s halt_on_error=0" % V.os.path.join(outl, "race"))
+    p = V.subprocess.run([hxr, "concload", "-seed", str(run.seed), "-tier", run.tier, "-out", outl, "-shards", str(V.NCPU)], env=env, capture_output=True, text=True, timeout=3600)
+    if p.returncode != 0 and p.returncode != 66:
+        raise V.Infra("concload failed: %s" % (p.stderr[-2000:]))
+    races = [f for f in V.os.listdir(outl) if f.startswith("race.")]
+    shards = V.shard_files(outl)
+    v = V.validate_shards(tmp, "TraceCodec", shards, "load")
+    summary = V.json.load(open(V.os.path.join(outl, "summary.json")))
+    summary["race_reports"] = len(races)
+    run.add_validation("load", v, summary)
+    V.judge(run, known, v["rejs"], shards, dict(hx=["concload"], seed=run.seed, tier=run.tier, module="TraceCodec", build="-race"))
+    if races:
+        V.os.makedirs(V.os.path.join(V.VERIF, "replays"), exist_ok=True)
+        rp = V.os.path.join(V.VERIF, "replays", "C12-race-seed%d.txt" % run.seed)
+        with open(rp, "w") as f:
+            f.write("reproduce: build harness with -race; hx concload -seed %d -tier %s\n\n" % (run.seed, run.tier))
+            f.write(open(V.os.path.join(outl, races[0])).read()[:20000])
+        run.violations.append(("C12.race", "data race reported by the Go race detector", rp, 1))
+    # (c) inventory of package-level state (diagnostic only)
+    outi = V.os.path.join(tmp, "tr_inv")
+    V.run_hx(hx, ["inventory", "-out", outi])
+    vi = V.validate_shards(tmp, "TraceCodec", V.shard_files(outi), "inv")
+    inv = V.json.loads(open(V.shard_files(outi)[0]).readline())
+    run.extra["package_level_state"] = dict(scanned=inv["vars"], diagnostics=["%s assigned outside the allowed writers" % inv["vars"][int(d) - 1]["name"] for (_i, c, d) in vi["rejs"] if c == "diag.inventory"])
+    run.assumptions += ["goroutine schedules of the Go runtime are not enumerated: (a) replays every call-granularity interleaving of the model deterministically, (b) samples real schedules under the race detector",
+                        "'no unsynchronised access' is decided by the Go race detector attached to the conformance run"]
+    return V.finish(run, "model_checking", "HConc model-checked; every call-granularity interleaving generated by TLC replayed on real instances (direct and pool-issued) and compared by TLC with the un-interleaved run; load runs of 2..64 goroutines under the race detector, every call's octets compared by TLC with the call alone")
+
+
 def plan_pool(run, tmp):
     known = V.load_known()
     hx = V.build_harness(tmp)
@@ -335,6 +456,9 @@ PLANS = {
     "C15": plan_codec("c15", fault_mc, "fault enumeration: for each value and writer-taking entry point every Write index k x 4 fault kinds is executed against the real encoder; each run's writer log is replayed by TLC through HFault (FaultSurfaces)", module="TraceFault", level="fault_enumeration", selftest=False),
     "C17": plan_pool,
     "C03": plan_c03,
+    "C12": plan_c12,
+    "C16": plan_c16,
+    "C11": plan_c11,
     "C14": plan_c14,
     "C05": plan_c05,
     "C13": plan_codec("c13", None, "encode calls on values containing an unsupported kind at every position: TLC requires an error (no panic, no success), and well-formed output for the control values"),
